@@ -483,6 +483,18 @@ scenario_writer(uint64_t key)
 	simk_closefd(fd);
 }
 
+/* The library polls on and on while virtual time stands still. */
+static void
+on_busy(void)
+{
+
+	viol("hang:busy-loop", "3000000 consecutive polls without virtual time advancing "
+	    "(the loop spins on a descriptor that stays ready)");
+	printf("SIG %016llx 1\n", (unsigned long long)casesig);
+	fflush(NULL);
+	_exit(3);
+}
+
 int
 main(int argc, char ** argv)
 {
@@ -494,6 +506,8 @@ main(int argc, char ** argv)
 	first = strtoull(argv[2], NULL, 0);
 	count = strtoull(argv[3], NULL, 0);
 	vh_stdout_linebuf();
+	simk_busy_limit = 3000000;
+	simk_on_busy = on_busy;
 	for (i = first; i < first + count; i++) {
 		vh_seed(&R, seed, i);
 		simk_reset(seed * 313 + i);
